@@ -808,6 +808,8 @@ class Interp:
         if isinstance(op, ast.Mult):
             return a * b
         if isinstance(op, ast.Div):
+            if b.is_zero():
+                return Poly.atom("NAN") if a.is_zero() else Poly.atom("DIVZERO") * a  # numpy: nan / signed inf, no exception
             return a / b
         if isinstance(op, ast.Pow):
             return fn("pow", a, b)
